@@ -134,8 +134,8 @@ structure State where
   -- threads
   tpc     : Nat → TPc
   nest    : Nat → Nat
-  cs      : Nat → Option Nat
-  ugp     : Nat → Option Nat
+  cs      : Nat → Nat          -- ghost: begin time of the thread's outermost section (meaningful while nest > 0)
+  ugp     : Nat → Nat          -- ghost: start time of the thread's synchronize_rcu() (while at `sync`)
   via     : Nat → Via
   -- ghost
   clock   : Nat
@@ -145,7 +145,7 @@ structure State where
   invN    : Nat → Nat
   fin     : Nat → Bool
   mark    : Nat → Option (Nat × Nat)   -- ghost: the callback is the marker of barrier b queued on helper h
-  hgp     : Nat → Option Nat
+  hgp     : Nat → Nat          -- start time of the helper's current / last grace period
   gpDone  : Nat
   unpubT  : Nat → Nat
   enqLog  : Nat → List Nat
@@ -157,9 +157,9 @@ def init : State :=
     paused := fun _ => false, futex := fun _ => 0, qlen := fun _ => 0, cnt := fun _ => 0, nextH := 0,
     list := [], retiring := fun _ => false, retired := fun _ => false, freed := fun _ => false,
     dflt := none, arr := false, percpu := fun _ => none, thr := fun _ => none, mutex := none,
-    tpc := fun _ => .idle, nest := fun _ => 0, cs := fun _ => none, ugp := fun _ => none, via := fun _ => .dflt,
+    tpc := fun _ => .idle, nest := fun _ => 0, cs := fun _ => 0, ugp := fun _ => 0, via := fun _ => .dflt,
     clock := 1, reg := fun _ => false, loc := fun _ => .none, enqT := fun _ => 0, invN := fun _ => 0,
-    fin := fun _ => false, mark := fun _ => none, hgp := fun _ => none, gpDone := 0, unpubT := fun _ => 0,
+    fin := fun _ => false, mark := fun _ => none, hgp := fun _ => 0, gpDone := 0, unpubT := fun _ => 0,
     enqLog := fun _ => [], invLog := fun _ => [] }
 
 inductive Label
@@ -236,7 +236,7 @@ instance (c s t op) : Decidable (OpObl c s t op) := by unfold OpObl; cases op <;
 /-- `GpSpec`: a grace period that started at `a` may end only when every read-side section that
 began before `a` has ended -/
 def gpMayEnd (c : Cfg) (s : State) (a : Nat) : Prop :=
-  ∀ t, t < nthr c s → ∀ b, s.cs t = some b → a ≤ b
+  ∀ t, t < nthr c s → 0 < s.nest t → a ≤ s.cs t
 
 instance (c s a) : Decidable (gpMayEnd c s a) := by
   unfold gpMayEnd
@@ -245,13 +245,12 @@ instance (c s a) : Decidable (gpMayEnd c s a) := by
 /-- `rcu_read_lock()` of thread `t` -/
 def lockS (s : State) (t : Nat) : State :=
   { s with nest := upd s.nest t (s.nest t + 1),
-           cs := if s.nest t = 0 then upd s.cs t (some s.clock) else s.cs,
+           cs := upd s.cs t (if s.nest t = 0 then s.clock else s.cs t),
            clock := s.clock + 1 }
 
 /-- `rcu_read_unlock()` of thread `t` -/
 def unlockS (s : State) (t : Nat) : State :=
   { s with nest := upd s.nest t (s.nest t - 1),
-           cs := if s.nest t = 1 then upd s.cs t none else s.cs,
            clock := s.clock + 1 }
 
 /-- `call_rcu_data_init()`: new helper `nextH`, first in `call_rcu_data_list`, thread spawned -/
@@ -279,15 +278,12 @@ def step (c : Cfg) (s : State) : Label → Option State
     if userCtx c s t = true ∧ s.tpc t = .idle ∧ 0 < s.nest t then some (unlockS s t) else none
   | .syncStart t =>
     if userCtx c s t = true ∧ s.tpc t = .idle then
-      some { s with tpc := upd s.tpc t .sync, ugp := upd s.ugp t (some s.clock), clock := s.clock + 1 }
+      some { s with tpc := upd s.tpc t .sync, ugp := upd s.ugp t s.clock, clock := s.clock + 1 }
     else none
   | .syncEnd t =>
-    match s.ugp t with
-    | some a =>
-      if s.tpc t = .sync ∧ gpMayEnd c s a then
-        some { s with tpc := upd s.tpc t .idle, ugp := upd s.ugp t none, gpDone := max s.gpDone a, clock := s.clock + 1 }
-      else none
-    | none => none
+    if s.tpc t = .sync ∧ gpMayEnd c s (s.ugp t) then
+      some { s with tpc := upd s.tpc t .idle, gpDone := max s.gpDone (s.ugp t), clock := s.clock + 1 }
+    else none
   -- ---------------------------------------------------------------- call_rcu()
   | .crCall t id =>
     if userCtx c s t = true ∧ s.tpc t = .idle ∧ s.reg id = false then
@@ -529,16 +525,13 @@ def step (c : Cfg) (s : State) : Label → Option State
       if s.queue h = [] then some { s with hpc := upd s.hpc h .stopchk, clock := s.clock + 1 }
       else
         some { s with hpc := upd s.hpc h .gp, batch := upd s.batch h (s.queue h), queue := upd s.queue h [],
-                      loc := relocate s.loc (.queue h) (.batch h), hgp := upd s.hgp h (some s.clock),
+                      loc := relocate s.loc (.queue h) (.batch h), hgp := upd s.hgp h s.clock,
                       cnt := upd s.cnt h 0, clock := s.clock + 1 }
     else none
   | .hGpEnd h =>
-    match s.hgp h with
-    | some a =>
-      if s.hpc h = .gp ∧ gpMayEnd c s a then
-        some { s with hpc := upd s.hpc h .inv, gpDone := max s.gpDone a, clock := s.clock + 1 }
-      else none
-    | none => none
+    if s.hpc h = .gp ∧ gpMayEnd c s (s.hgp h) then
+      some { s with hpc := upd s.hpc h .inv, gpDone := max s.gpDone (s.hgp h), clock := s.clock + 1 }
+    else none
   | .hRunBegin h cb =>
     -- `cb` must be the first callback of the batch (`__cds_wfcq_for_each_blocking_safe` order)
     if s.hpc h = .inv ∧ (s.batch h).head? = some cb then
